@@ -266,6 +266,9 @@ sys.exit(1 if msg else 0)
 
 def main(tier, seed):
     rep = Report(PID, tier, seed, "proof")
+    from engine import crosscheck
+
+    crosscheck.attach(rep, seed)
     rep.assumed_contract("core field functions are positively homogeneous in their length arguments (degree 0 magnets, -1 currents, -3 dipole): PROVED here for "
                          "magnet_cuboid_Bfield, dipole_Hfield, triangle_Bfield (real code, dimension calculus incl. additive degrees of logarithms); ASSUMED for the "
                          "stubs of the remaining cores: cyl_dia_H, cyl_ax_B, seg_H, circle_H, polyline_H, point_inside, det_neg")
